@@ -430,21 +430,23 @@ func (r *rwRT) ruleKindTab() {
 	inList := []string{"kindTrival", "kindIf", "kindSwitch", "kindNormal", "kindYield", "kindCombine", "kindFor"} // kindDelay never appears in a list
 	returning := map[string]bool{"kindNormal": true, "kindYield": true, "kindCombine": true, "kindFor": true}
 	yielding := map[string]bool{"kindIf": true, "kindSwitch": true, "kindYield": true, "kindCombine": true, "kindFor": true}
-	mkBlockObj := func(st *State, bk string, ks []string) AV {
+	// blocks are built through the package's own API (mkBlock, markCombined, push)
+	mkBlockObj := func(bk string, ks []string) (AV, *State) {
 		var stmts, kk []AV
 		for i, k := range ks {
 			stmts = append(stmts, Dyn{T: r.astPtr("ExprStmt"), V: Sym{Name: fmt.Sprintf("s%d", i), NN: true}})
 			kk = append(kk, kinds[k])
 		}
-		var list, kl AV = SliceV{Elems: stmts}, SliceV{Elems: kk}
-		blk := st.alloc(&Obj{T: r.astPtr("BlockStmt").(*types.Pointer).Elem(), Kind: 's', Fields: map[string]AV{"List": list}})
-		return st.alloc(&Obj{Kind: 's', Fields: map[string]AV{"block": blk, "kinds": kl, "kind": kinds[bk], "frozen": mkBool(false), "combineChecked": mkBool(true)}})
+		b, st, err := r.buildBlock(newState(), kinds[bk], stmts, kk)
+		if err != nil {
+			undecided("cannot build a block of kinds %v: %v", ks, err)
+		}
+		return b, st
 	}
 	run := func(method string, bk string, ks []string, term *bool) (AV, bool) {
 		fn := r.method("block", method)
 		c.fn(relName(fn))
-		st := newState()
-		recv := mkBlockObj(st, bk, ks)
+		recv, st := mkBlockObj(bk, ks)
 		in := r.interp(rwConfig{root: fn, inlineAll: true})
 		in.MaxVisits = 8
 		args := []AV{recv}
